@@ -52,3 +52,96 @@ PROPS = {
         "assumptions": ["the lookups are only read through Index at the reported index (a Change in the model records that index instead of the value)"],
     },
 }
+
+PROPS.update({
+    "C02": {
+        "title": "Captured ops form a valid edit script old->new",
+        "module": "SimilarVerif.Props.C02",
+        "suites": ["cap", "deadline"],
+        "rule": "cap: capture_diff_deadline on all pairs up to length 4 (thorough 5) over 3 symbols, all sub-ranges of pairs up to 3 (thorough 4) with slice/offset lookups, structured random pairs; each case also through Compact(Replace(hook)) built by hand and with the repair switch; deadline: every expiry point; non-trivial = a change and an equal item",
+        "theorem_status": "full for everything that follows from validity of the op list (application, coverage, ratio in [0,1], ratio = 1 iff no change iff element-wise equal) and for the Replace->Capture stage on any valid script; Compact stage: partial correctness (C10); end-to-end factorisation of captureDiff into raw stream -> clean-up -> Replace: Lemmas/Capture.lean in progress",
+        "level_text": "Lean theorems about any valid op list and about the Replace stage; captured op lists of the implementation compared with the model exactly (incl. comparison/probe counts) and validated by an independent walker / replayer / ratio check.",
+        "level_note": "end-to-end statement for Myers/Patience inherits C01's hypotheses; f32 ratio is computed natively in the driver, theorems are over the exact fraction",
+    },
+    "C03": {
+        "title": "Myers and LCS report a shortest edit script; ratio = 2*LCS/(N+M)",
+        "module": "SimilarVerif.Props.C03",
+        "suites": ["raw", "cap"],
+        "rule": "raw/cap as for C01/C02; the validator computes a brute-force DP LCS for every Myers and LCS run (raw and captured) and compares deleted+inserted, equal total and the f32 ratio",
+        "theorem_status": "lower bound for every valid script (full); LCS minimal for all inputs and sub-ranges (full); clean-up and Replace keep item counts (partial correctness of Compact); Myers minimality: needs middle-snake theory (in progress), covered by the brute-force validator",
+        "level_text": "Lean theorems: cost >= N+M-2L for every valid script; LCS raw stream attains it (table correctness + greedy walk optimality + prefix/suffix stripping); clean-up preserves counts. Myers minimality is validated on the implementation by brute force on the whole explored space.",
+        "level_note": "Myers' optimality is not yet a theorem; Spec.lcsLen is the textbook recursion",
+    },
+    "C06": {
+        "title": "Tokenizers are lossless partitions with the documented token shape",
+        "module": "SimilarVerif.Props.C06",
+        "suites": ["tok"],
+        "rule": "tok: all strings up to length 3 (thorough 4) over a 14-symbol alphabet (ASCII, LF, CR, NBSP, U+2028, U+3000, U+0085, e-acute, combining acute, ZWJ, regional indicator, NUL) as str and bytes, all byte strings up to length 3 (thorough 4) over 14 critical bytes incl. invalid UTF-8, random longer texts; 6 tokenizers each; bstr char_indices and char::is_whitespace compared with the model (thorough: all scalar values); non-trivial = at least 2 tokens",
+        "theorem_status": "full for the eight non-unicode tokenizers (losslessness, shapes, str = bytes on valid UTF-8, for all inputs); unicode words/graphemes lossless relative to the external segmenter's Partition contract",
+        "level_text": "Lean theorems for every string / byte string; the lossy UTF-8 decoder of bstr is modelled and compared exhaustively on short byte strings; unicode segmenters are external parameters whose contract is checked on every case.",
+        "level_note": "unicode-segmentation and bstr's word/grapheme segmenters are not modelled (parameters with contract Partition)",
+    },
+    "C07": {
+        "title": "Deadline expiry at any point still yields a valid diff, promptly; it is plumbed",
+        "module": "SimilarVerif.Props.C07",
+        "suites": ["deadline", "text"],
+        "rule": "deadline: all pairs up to length 4 over 2 (thorough 3) symbols + random pairs x 3 algorithms x every expiry point k = 0..#checks+1 (sampled beyond 40) through algorithms::diff_deadline and capture_diff_deadline under the virtual clock; validators: script validity, finish once, comparisons after expiry <= 2x the hand-derived bound, never-expiring = none; text: TextDiffConfig deadline/timeout reach the algorithm; non-trivial = the clock actually expired",
+        "theorem_status": "validity and finish-once for EVERY expiry point: LCS full (incl. totality), Myers and Patience relative to SnakeInBox; never-expiring = none and the post-expiry comparison bound: Lemmas/Deadline.lean in progress, covered by exact model correspondence (comparison and probe counts at every expiry point) and validators",
+        "level_text": "Lean theorems quantify over all virtual-clock states, i.e. all expiry points; the virtual clock is the cfg(similar_verif) hook in /repo, so expiry at the k-th check is an input of the correspondence as well.",
+        "level_note": "real time cannot be exhibited by the model: Instant::now() > deadline is replaced by the virtual clock under the guard",
+    },
+    "C08": {
+        "title": "Hook protocol: finish once and last; a hook error aborts the diff unchanged",
+        "module": "SimilarVerif.Props.C08",
+        "suites": ["stacks"],
+        "rule": "stacks: all pairs up to length 3 (thorough 5) over 2 symbols + random pairs x 3 algorithms x 6 adapter stacks (none, &mut, NoFinish, Replace, Compact, Compact+Replace) x hook with/without replace override x every failing call index k; non-trivial = more than 2 calls",
+        "theorem_status": "full: abort-prefix theorem for every algorithm x {none, NoFinish, Replace, Compact, Compact+Replace} x every k and both replace modes; finish once and last follows from C01's validity (LCS full, Myers relative to SnakeInBox); NoFinish forwarding and default replace by definition",
+        "level_text": "Lean theorem: the run against a hook failing at call k is exactly the k+1-prefix of the never-failing run, returns that error, for all inputs (simulation proof over every hook-generic model function); the correspondence exercises every k on the real code.",
+        "level_note": "&mut D forwarding is the identity in the model; a dropped `?` cannot be expressed in the model and is caught by the correspondence",
+    },
+    "C09": {
+        "title": "Captured diffs are in canonical normal form",
+        "module": "SimilarVerif.Props.C09",
+        "suites": ["cap", "script", "deadline"],
+        "rule": "cap/deadline/script as for C02/C07/C10; the normal-form validator (alternation, no empty op, delete+insert merged, insert at latest position) runs on every captured op list and on every arbitrary script pushed through Compact+Replace",
+        "theorem_status": "clauses 1-3 (alternation, no adjacent changes, no empty op) full for Replace on any valid script; clause 4 (insertion at latest position): Lemmas/CompactTotal.lean in progress, covered by correspondence + validator",
+        "level_text": "Lean theorems for the Replace stage on every valid script; clean-up model compared with the code on all valid scripts of a small scope.",
+        "level_note": "clause 4 not yet a theorem",
+    },
+    "C11": {
+        "title": "Every captured op carries exact positions in both sequences",
+        "module": "SimilarVerif.Props.C11",
+        "suites": ["cap"],
+        "rule": "cap as for C02, without deadline; every captured op list is checked for exact positions; a failing case is re-run with the cfg(similar_verif) swap-repair switch and attributed to the known finding only if the failure disappears",
+        "theorem_status": "the unchanged code violates C11 (known finding KF-compact-swap): counterexample theorem on the shipped model; with the swap repair the clean-up keeps exactness for all valid scripts; shipped and repaired variants differ only in carried indices; Replace/LCS/Myers-without-deadline stages exact",
+        "level_text": "Lean theorems: negation witness for the shipped swap, positive theorem for the repaired swap, attribution lemma; both variants of the implementation compared with both variants of the model.",
+        "level_note": "KNOWN FINDING listed in known_findings.json; the check prints KNOWN-FINDING and exits 0 only when every failure is attributable to the swap site",
+    },
+    "C15": {
+        "title": "Patience keeps a maximum in-order set of unique common items",
+        "module": "SimilarVerif.Props.C15",
+        "suites": ["raw", "cap"],
+        "rule": "raw/cap as for C01/C02; for every Patience run (raw and captured) the validator computes the longest common in-order subsequence of the items unique on both sides by brute force and compares with the number of such items reported Equal",
+        "theorem_status": "pairing clause full (an anchored item is matched to its unique counterpart) on top of Patience soundness (relative to SnakeInBox); the size clause needs Myers minimality on the unique lists (theory in progress), covered by the brute-force LIS validator",
+        "level_text": "Lean theorems: Patience streams are valid scripts; equal segments pair equal items, hence unique items their counterparts; unique() is ascending and in range.",
+        "level_note": "size clause not yet a theorem",
+    },
+    "C19": {
+        "title": "Myers and Patience do work proportional to (N+M)*(D+1)",
+        "module": "SimilarVerif.Props.C19",
+        "suites": ["cost"],
+        "rule": "cost: 700 (thorough 6000) generated pairs up to 600 (thorough 3000) items per side from 7 families (near-identical, block moves, periodic, heavy repeats, unrelated, unique-rich, small alphabet) x Myers and Patience; comparisons counted by the element type; non-trivial = near-identical (D*8 < N+M)",
+        "theorem_status": "partial: per-scan cost bounds (unconditional); the D-dependent bound needs the iteration count of the middle-snake search (theory in progress) and is established by measurement against c = 2 only",
+        "level_text": "Lean theorems for the cost of the prefix/suffix scans; the cost model (exact comparison counts) is validated against the code on every request of every suite; the (N+M+1)(D+1) bound is checked by measurement.",
+        "level_note": "the main bound is not a theorem yet; wall-clock time is not modelled, comparisons are the proxy the property names",
+    },
+    "C20": {
+        "title": "Diffs are deterministic and depend only on the equality pattern of the items",
+        "module": "SimilarVerif.Props.C20",
+        "suites": ["determinism", "text"],
+        "rule": "determinism: small exhaustive and random label sequences x 3 algorithms, each run twice in the calling thread, on two long-lived and (sampled) two freshly spawned threads, with a second hash salt and with injectively relabelled values; text: str vs bytes of the same text, repeated and threaded runs; non-trivial = diff has a change",
+        "theorem_status": "full at model level: injective relabelling gives the same environment hence the same result of every model function; unique/IdentifyDistinct specified without hash order; str = bytes tokens on valid UTF-8",
+        "level_text": "Lean theorems about the model; threads and hasher seeds are runtime behaviour no executable model can exhibit and are covered by the harness (repeated, threaded, re-salted, relabelled runs must agree).",
+        "level_note": "the runtime half (threads, RandomState) is testing, labelled as such",
+    },
+})
